@@ -15,7 +15,7 @@
 //!          Quiescent pending nothing can run any more (all gates open); calls still unanswered
 //!
 //! call kinds: "meth" X.Work(k) (&self), "methmut" X.WorkMut(k) (&mut self), "get" Properties.Get(X, Pk),
-//! "set" Properties.Set(X, Pk), "intro" Introspect.  X = org.verif.Seq (spawn = false) or org.verif.Par.
+//! "set" Properties.Set(X, Pk), "intro" Introspect, "ping" Peer.Ping.  X = org.verif.Seq (spawn = false) or org.verif.Par.
 use crate::sched::*;
 use serde_json::{json, Value as J};
 use std::collections::HashMap;
@@ -212,6 +212,7 @@ fn start_call(client: &Connection, spawn: bool, k: u32, c: &CallCfg) -> Job<bool
                 GA_K.store(k, std::sync::atomic::Ordering::SeqCst);
                 conn.call_method(None::<()>, "/d", Some("org.freedesktop.DBus.Properties"), "GetAll", &("org.verif.GA",)).await
             }
+            "ping" => conn.call_method(None::<()>, "/d", Some("org.freedesktop.DBus.Peer"), "Ping", &()).await,
             _ => conn.call_method(None::<()>, "/d", Some("org.freedesktop.DBus.Introspectable"), "Introspect", &()).await,
         };
         r.is_ok()
@@ -551,12 +552,12 @@ pub fn random(class: &str, n: u64, seed: u64, out: &str) {
             "mutate" => {
                 let nc = 1 + rng.below(4);
                 for _ in 0..nc {
-                    let mut kind = ["meth", "methmut", "get", "set", "intro", "getall"][rng.below(6) as usize];
+                    let mut kind = ["meth", "methmut", "get", "set", "intro", "getall", "ping"][rng.below(7) as usize];
                     if kind == "getall" && calls.iter().any(|c: &CallCfg| c.kind == "getall") {
                         kind = "get";
                     }
                     let mut body = vec![];
-                    if kind != "intro" {
+                    if kind != "intro" && kind != "ping" {
                         for _ in 0..(1 + rng.below(3)) {
                             body.push(['y', 'w', 'e', 'w'][rng.below(4) as usize]);
                         }
